@@ -77,6 +77,11 @@ def c02_state(sim) -> List[Tuple[str, tuple, str]]:
                         f"station {sid} plug {cid}: enqueued={cs.enqueued_vehicles} but {queueing.get((sid, cid), 0)} vehicle(s) queueing",
                     )
                 )
+    # a plug type that is not installed has "installed = free = 0": nobody can be charging on it
+    for (sid, cid), n in charging.items():
+        st = sim.stations.get(sid)
+        if st is None or cid not in st.state:
+            out.append(("plug_count", (cid, "charging_on_plug_not_installed"), f"{n} vehicle(s) charging at station {sid} on plug type {cid}, which is not installed there"))
     for bid, b in sim.bases.items():
         if not (0 <= b.available_stalls <= b.total_stalls):
             out.append(("stall_range", (), f"base {bid}: available={b.available_stalls} total={b.total_stalls}"))
@@ -93,6 +98,9 @@ def c02_state(sim) -> List[Tuple[str, tuple, str]]:
 
 
 def c02_transition(ctx: Ctx) -> List[Violation]:
+    for v in ctx.post.vehicles.values():
+        if sname(v) == "ChargeQueueing" and sum(v.energy.values()) <= 0:
+            ctx.cov["c02:queued_vehicle_empty"] += 1
     bad = c02_state(ctx.post)
     if not bad:
         return []
